@@ -39,25 +39,94 @@ SPEC_NAMES = {
 
 
 # ------------------------------------------------------------------ running the real operators
-def apply_op(t, op):
-    """op = dict(kind=..., params...) ; returns the result Triangle (exceptions propagate)."""
+def forms(op):
+    """Every public way of asking for the same thing: the Triangle METHOD wrappers of bermuda/factory.py
+    (with as many defaults left implicit as the request allows, positional and keyword) and the plain
+    functions.  Returns [(name, callable(triangle))]; the first entry is the primary observation."""
     from bermuda import Triangle
+    from bermuda.utils import extend
     from bermuda.utils.backfill import backfill
     from bermuda.utils.fill import fill_forward_gaps
 
+    k = op["kind"]
+    out = []
+    if k == "rt":
+        lags, unit = op["lags"], op["unit"]
+        if lags is None and unit == "month":
+            out.append(("method()", lambda t: t.make_right_triangle()))
+            out.append(("function(t)", lambda t: extend.make_right_triangle(t)))
+        if unit == "month":
+            out.append(("method(lags)", lambda t: t.make_right_triangle(lags)))
+            out.append(("function(t, lags)", lambda t: extend.make_right_triangle(t, lags)))
+        out.append(("method(dev_lags=, dev_lag_unit=)", lambda t: t.make_right_triangle(dev_lags=lags, dev_lag_unit=unit)))
+        out.append(("method(lags, unit)", lambda t: t.make_right_triangle(lags, unit)))
+        out.append(("function(t, dev_lags=, dev_lag_unit=)", lambda t: extend.make_right_triangle(t, dev_lags=lags, dev_lag_unit=unit)))
+    elif k == "rd":
+        dates, hist = [D.fromisoformat(d) for d in op["dates"]], op["hist"]
+        if not hist:
+            out.append(("method(dates)", lambda t: t.make_right_diagonal(dates)))
+            out.append(("function(t, dates)", lambda t: extend.make_right_diagonal(t, dates)))
+            out.append(("method(evaluation_dates=)", lambda t: t.make_right_diagonal(evaluation_dates=dates)))
+        out.append(("method(dates, include_historic=)", lambda t: t.make_right_diagonal(dates, include_historic=hist)))
+        out.append(("method(dates, hist)", lambda t: t.make_right_diagonal(dates, hist)))
+        out.append(("function(t, dates, include_historic=)", lambda t: extend.make_right_diagonal(t, dates, include_historic=hist)))
+    elif k == "ff":
+        res, none = op["res"], op["none"]
+        if res is None and not none:
+            out.append(("function(t)", lambda t: fill_forward_gaps(t)))
+        if not none:
+            out.append(("function(t, res)", lambda t: fill_forward_gaps(t, res)))
+        out.append(("function(t, eval_resolution=, fill_with_none=)", lambda t: fill_forward_gaps(t, eval_resolution=res, fill_with_none=none)))
+        out.append(("function(t, res, none)", lambda t: fill_forward_gaps(t, res, none)))
+        if hasattr(Triangle, "fill_forward_gaps"):
+            out.append(("method(eval_resolution=, fill_with_none=)", lambda t: t.fill_forward_gaps(eval_resolution=res, fill_with_none=none)))
+    elif k == "bf":
+        st, res, ml = list(op["statics"]), op["res"], op["min_lag"]
+        if st == ["earned_premium"] and res is None and ml == 0:
+            out.append(("function(t)", lambda t: backfill(t)))
+        out.append(("function(t, static_fields=, eval_resolution=, min_dev_lag=)",
+                    lambda t: backfill(t, static_fields=list(st), eval_resolution=res, min_dev_lag=ml)))
+        out.append(("function(t, statics, res, min_lag)", lambda t: backfill(t, list(st), res, ml)))
+        if hasattr(Triangle, "backfill"):
+            out.append(("method(static_fields=, eval_resolution=, min_dev_lag=)",
+                        lambda t: t.backfill(static_fields=list(st), eval_resolution=res, min_dev_lag=ml)))
+    else:
+        raise ValueError(k)
+    return out
+
+
+def call_form(t, f):
+    from bermuda import Triangle
+
     with warnings.catch_warnings():
         warnings.simplefilter("ignore")
-        t = Triangle(list(t.cells))  # fresh caches
-        k = op["kind"]
-        if k == "rt":
-            return t.make_right_triangle(dev_lags=op["lags"], dev_lag_unit=op["unit"])
-        if k == "rd":
-            return t.make_right_diagonal([D.fromisoformat(d) for d in op["dates"]], include_historic=op["hist"])
-        if k == "ff":
-            return fill_forward_gaps(t, eval_resolution=op["res"], fill_with_none=op["none"])
-        if k == "bf":
-            return backfill(t, static_fields=list(op["statics"]), eval_resolution=op["res"], min_dev_lag=op["min_lag"])
-    raise ValueError(k)
+        return f(Triangle(list(t.cells)))  # fresh caches for every form
+
+
+def apply_op(t, op):
+    """The primary observation: the most implicit METHOD form available (exceptions propagate)."""
+    return call_form(t, forms(op)[0][1])
+
+
+def form_differences(t, op, res):
+    """All public forms of the same request must agree with the primary observation (strict)."""
+    def canon(r):
+        return ("err", type(r).__name__) if isinstance(r, BaseException) else ("ok", ct.canon_tri(r, ordered=True))
+
+    fs = forms(op)
+    want = canon(res)
+    bad = []
+    for name, f in fs[1:]:
+        try:
+            r = call_form(t, f)
+        except Exception as ex:  # noqa: BLE001
+            r = ex
+        if canon(r) != want:
+            def short(x):
+                return f"raised {type(x).__name__}" if isinstance(x, BaseException) else f"{len(x)} cells"
+            bad.append(f"calling forms disagree: {fs[0][0]} -> {short(res)}, {name} -> {short(r)}")
+            break
+    return bad
 
 
 def cop(op):
@@ -111,7 +180,7 @@ def find_row(metas, rws, c):
 def oracle(t, op, res):
     """Property statement evaluated directly on (input, parameters, real result | exception).
     Returns list of messages (empty = holds)."""
-    bad = []
+    bad = form_differences(t, op, res)
     cells = list(t.cells)
     k = op["kind"]
     inc = bool(cells) and type(cells[0]).__name__ == "IncrementalCell"
@@ -144,7 +213,7 @@ def oracle(t, op, res):
             seen.add(key)
             if not c.evaluation_date > row[-1].evaluation_date:
                 bad.append(f"new cell {coord(c)} not strictly after the period's latest observation {row[-1].evaluation_date}")
-            if ct.canon_meta(c.metadata, True) != ct.canon_meta(row[-1].metadata, True):
+            if c.metadata != row[-1].metadata:  # the slice's metadata (Python ==; spelling is tied by the model)
                 bad.append("new cell does not carry its slice's metadata")
             if c.values != {}:
                 bad.append(f"new cell has values {c.values}")
@@ -206,7 +275,7 @@ def oracle(t, op, res):
             if row is None:
                 bad.append(f"filled cell in a (slice, period) absent from the input: {coord(c)}")
                 continue
-            if ct.canon_meta(c.metadata, True) != ct.canon_meta(row[0].metadata, True) or type(c) is not type(row[0]):
+            if c.metadata != row[0].metadata or type(c) is not type(row[0]):
                 bad.append("filled cell does not carry its slice's metadata / class")
             first, last = lag_of(row[0], "month"), lag_of(row[-1], "month")
             lg = lag_of(c, "month")
@@ -223,6 +292,8 @@ def oracle(t, op, res):
             src = orow[-1] if orow else None
             if src is None:
                 bad.append("filled cell has no earlier cell")
+            elif ct.canon_meta(c.metadata, True) != ct.canon_meta(src.metadata, True):
+                bad.append("filled cell's metadata is not the metadata object of the cell it was carried forward from")
             elif op["none"]:
                 if set(c.values) != set(src.values) or any(v is not None for v in c.values.values()):
                     bad.append(f"fill_with_none cell holds {c.values}")
@@ -319,6 +390,49 @@ def convertible(cells):
 SHAPES = ["regular", "ragged", "holey", "single_period", "single_lag", "regular", "ragged"]
 
 
+def respell(t, kind, rng):
+    """Give some cells of ONE logical slice metadata that are Python-equal but differently represented
+    (7 vs 7.0, 1 vs True, other dict insertion order): on the newest diagonal for the right triangle /
+    diagonal, anywhere inside the rows for fill / backfill."""
+    import dataclasses
+
+    from bermuda import Triangle
+
+    cells = list(t.cells)
+    variant = rng.choice(["float", "bool", "order", "float+order"])
+
+    def base(m):
+        d = dict(m.details)
+        d["treaty_id"] = 7
+        d["flag"] = 1
+        return dataclasses.replace(m, details=d)
+
+    def alt(m):
+        d = dict(m.details)
+        d["treaty_id"] = 7.0 if "float" in variant else 7
+        d["flag"] = True if variant == "bool" else 1
+        if "order" in variant:
+            d = dict(reversed(list(d.items())))
+        return dataclasses.replace(m, details=d)
+
+    newest = {}
+    for c in cells:
+        newest[c.metadata] = max(newest.get(c.metadata, c.evaluation_date), c.evaluation_date)
+    one = rng.choice(list(newest)) if rng.random() < 0.5 else None  # one slice or all of them
+    out = []
+    for c in cells:
+        if kind in ("rt", "rd"):
+            pick = c.evaluation_date == newest[c.metadata]
+        else:
+            pick = rng.random() < 0.4
+        if one is not None and c.metadata != one:
+            pick = False
+        out.append(c.replace(metadata=alt(c.metadata) if pick else base(c.metadata)))
+    with warnings.catch_warnings():
+        warnings.simplefilter("ignore")
+        return Triangle(out)
+
+
 def gen_case(rng, g, i):
     shape = SHAPES[i % len(SHAPES)]
     basis = "inc" if (i // len(SHAPES)) % 3 == 2 else "cum"
@@ -354,6 +468,10 @@ def gen_case(rng, g, i):
             t = Triangle(kept)
         cells = list(t.cells)
         shape = shape + "+slice_ragged"
+    if rng.random() < 0.2:
+        t = respell(t, kind, rng)
+        cells = list(t.cells)
+        shape = shape + "+respelled"
     evs = sorted({c.evaluation_date for c in cells})
     lags = sorted({mid(c.evaluation_date) - mid(c.period_end) for c in cells})
     if kind == "rt":
@@ -449,6 +567,29 @@ def directed():
                              values={"paid_loss": 10 + k}) for k in lags]
         out.append((nm, Triangle(cs), {"kind": "ff", "res": 3, "none": False}))
         out.append((nm + "-none", Triangle(cs), {"kind": "ff", "res": 3, "none": True}))
+    # ONE logical slice whose newest diagonal spells a detail 7.0 where the older cells spell 7 (and a
+    # variant with the other dict insertion order): == and hash agree, so this is one slice
+    for nm, m_old, m_new in [
+        ("respelled-7-vs-7.0", Metadata(details={"treaty_id": 7}), Metadata(details={"treaty_id": 7.0})),
+        ("respelled-dict-order", Metadata(details={"a": 1, "treaty_id": 7}), Metadata(details={"treaty_id": 7.0, "a": True})),
+    ]:
+        ul = []
+        for ps, pe, evs in [(D(2020, 1, 1), D(2020, 3, 31), [D(2020, 3, 31), D(2020, 6, 30), D(2020, 9, 30)]),
+                            (D(2020, 4, 1), D(2020, 6, 30), [D(2020, 6, 30), D(2020, 9, 30)]),
+                            (D(2020, 7, 1), D(2020, 9, 30), [D(2020, 9, 30)])]:
+            for e in evs:
+                ul.append(CumulativeCell(period_start=ps, period_end=pe, evaluation_date=e, values={"paid_loss": 3},
+                                         metadata=m_new if e == D(2020, 9, 30) else m_old))
+        out.append((nm + "-rt", Triangle(ul), {"kind": "rt", "unit": "month", "lags": None}))
+        out.append((nm + "-rd", Triangle(ul), {"kind": "rd", "dates": ["2020-12-31", "2020-09-30", "2020-06-30"], "hist": False}))
+        hol = [CumulativeCell(period_start=D(2020, 1, 1), period_end=D(2020, 1, 31), evaluation_date=mend(600 + k),
+                              values={"paid_loss": 10 + k}, metadata=m_new if k == 3 else m_old) for k in (0, 3, 9)]
+        out.append((nm + "-ff", Triangle(hol), {"kind": "ff", "res": 3, "none": False}))
+        out.append((nm + "-bf", Triangle([c for c in hol if c.evaluation_date > mend(600)]),
+                    {"kind": "bf", "statics": [], "res": 3, "min_lag": 0}))
+    # a date list overlapping history, asked through the METHOD with its defaults
+    out.append(("diag-overlapping-history", Triangle(inc), {"kind": "rd", "dates": ["2020-03-31", "2020-06-30", "2020-09-30", "2020-12-31"], "hist": False}))
+    out.append(("diag-overlapping-history-cum", Triangle(sq), {"kind": "rd", "dates": ["2020-03-31", "2020-06-30", "2020-09-30"], "hist": False}))
     out.append(("upper-left-incremental-diag", Triangle(inc), {"kind": "rd", "dates": ["2020-12-31", "2021-03-31", "2020-06-30"], "hist": False}))
     return out
 
